@@ -10,7 +10,7 @@ from ..runner import short
 from .c06 import views
 
 ID = "C10"
-N = {"quick": 5000, "thorough": 160000}
+N = {"quick": 15000, "thorough": 160000}
 TIME_BUDGET = {"quick": 45, "thorough": 480}
 MIN_NONTRIVIAL = {"quick": 300, "thorough": 3000}
 RULE = ("cases = declaration (Schema / DataClass / @parse function, 2-5 fields; field types int, str, List[int], Optional[int], "
